@@ -106,6 +106,12 @@ Fixpoint meta_sub (m : meta) (o : list (list N * list N)) : bool :=
       existsb (fun kv => beq (fst kv) k && beq (snd kv) v) o && meta_sub m' o
   end.
 
+(* the converse for user metadata: an x-amz-meta-* header in the answer is one the model object
+   carries (sent with its upload, or carried over from the object it replaced) *)
+Definition user_meta_from (m : meta) (o : list (list N * list N)) : bool :=
+  forallb (fun kv => negb (prefixb (B "X-Amz-Meta-") (fst kv)) ||
+                     existsb (fun mkv => beq (fst mkv) (fst kv) && beq (snd mkv) (snd kv)) m) o.
+
 Fixpoint list_eqb (a b : list (list N)) : bool :=
   match a, b with
   | [], [] => true
@@ -180,7 +186,8 @@ Definition obj_step (md5 : list N -> list N) (c : config) (hs : hstate) (o : hop
           else expect (beq (ob_body ob) (vd_body v)) "S:body") ++
          expect (beq (ob_etag ob) (etag_of md5 (vd_body v))) "S:etag" ++
          expect (beq (ob_cl ob) (dec (blen (vd_body v)))) "S:content-length" ++
-         expect (meta_sub (vd_meta v) (ob_meta ob)) "S:metadata" ++ vm)
+         expect (meta_sub (vd_meta v) (ob_meta ob)) "S:metadata" ++
+         expect (user_meta_from (vd_meta v) (ob_meta ob)) "S:metadata-of-another-object" ++ vm)
   | RMarker i =>
       let '(t', vm) := check_vid t (Some i) ob in
       (mk t', expect (negb (ob_panic ob)) "S:panic" ++ expect (ob_status ob =? 404) "S:status" ++
@@ -338,7 +345,7 @@ Definition chunked_put_step (md5 : list N -> list N) (c : config) (hs : hstate) 
           (* every backend reads the body with ReadAll(reader, declared) before storing *)
           match decode_readall r declared with
           | DOk p =>
-              match put_object s1 b k p [] with
+              match put_object s1 b k p (carry_meta s1 b k []) with
               | (s2, _) => (with_model hs s2, exp_ok ob ++ expect (beq (ob_etag ob) (etag_of md5 p)) "S:put-etag" ++ spec)
               end
           | _ => (with_model hs s1, expect (negb (ob_panic ob)) "S:panic" ++
